@@ -17,7 +17,8 @@ LEVEL = 'exploration'
 PAR = 8
 RULE = ('random sequences of 5..40 commands per REPL instance (bash and python, blocking and awaited form) drawn from a family '
         'whose output is known by construction: unique-id payloads of 0..300 KB with/without final newline, no-output commands, '
-        'outputs whose edges are white space (empty first lines, only empty lines, leading/trailing blanks), '
+        'outputs whose edges are white space (empty first lines, only empty lines, leading/trailing blanks), non-ASCII outputs '
+        '(tokens of mixed encoded lengths repeated up to 30000 times, so that read boundaries fall inside characters), '
         'multi-line blocks, two commands in one call, trailing newline, state carried between commands, incomplete constructs in '
         'between (must raise ValueError and leave the next command undisturbed). run_command must return exactly the expected '
         'text (LF -> CRLF by the pty). non-trivial = sequence containing a multi-line block or an incomplete construct or an '
@@ -26,7 +27,7 @@ ASSUMPTIONS = ['expected outputs are computed by the generator; the pty turns LF
                'a violation is reported only if it reproduces in two further serial runs (replwrap contains hard-coded 1 s waits)',
                'zsh is not installed: not exercised']
 REQUIRED = ['sequences', 'commands', 'bash_commands', 'python_commands', 'async_commands', 'incomplete_inputs',
-            'large_outputs', 'multiline_blocks']
+            'large_outputs', 'multiline_blocks', 'non_ascii_outputs', 'non_ascii_outputs_awaited']
 
 
 def uid(rng):
@@ -132,10 +133,38 @@ def gen_py(rng):
     return (rng.choice(['for i in range(3):', 'def g():', '(1 +', 'if True:', "'''abc"]), None, 'incomplete')
 
 
+NONASCII = [u'\u00e9', u'\u20ac', u'\U0001f600', u'\u00df', u'\u8a9e', u'a', u'-']
+
+
+def gen_nonascii(rng, shell):
+    """a command written in ASCII whose output is not: a token of one to four characters of mixed encoded lengths,
+    repeated often enough (sometimes) for the output to arrive in many reads, so that read boundaries fall inside
+    characters at ever different offsets"""
+    u = uid(rng) + rng.choice(['', '+'])
+    tok = u''.join(rng.choice(NONASCII) for _ in range(rng.randint(1, 4)))
+    if all(ord(c) < 128 for c in tok):
+        tok += u'\u00e9'
+    n = rng.choice([1, 3, 40, 700]) if rng.random() < 0.5 else rng.choice([9000, 30000])
+    nl = rng.random() < 0.5
+    exp = u + tok * n + ('\r\n' if nl else '')
+    kind = 'large' if len(exp.encode('utf-8')) > 5000 else 'nonascii'
+    if shell == 'bash':
+        octal = ''.join('\\%03o' % b for b in tok.encode('utf-8'))
+        cmd = "printf '%%s' %s; printf '%s%%.0s' $(seq 1 %d)%s" % (u, octal, n, '; echo' if nl else '')
+    else:
+        esc = tok.encode('unicode_escape').decode('ascii')
+        cmd = "import sys; _ = sys.stdout.buffer.write(('%s' + '%s' * %d + %r).encode('utf-8')); sys.stdout.flush()" % (
+            u, esc, n, '\n' if nl else '')
+    return (cmd, exp, kind)
+
+
 def gen_case(rng):
     shell = rng.choice(['bash', 'python'])
     n = rng.randint(5, 40 if rng.random() < 0.3 else 14)
     cmds = [(gen_bash if shell == 'bash' else gen_py)(rng) for _ in range(n)]
+    if rng.random() < 0.45:
+        for _ in range(rng.randint(1, 3)):
+            cmds.insert(rng.randrange(len(cmds) + 1), gen_nonascii(rng, shell))
     make = 'stock'
     if rng.random() < 0.4:
         make = rng.choice(['custom-init', 'custom-init'] + (['existing-echo', 'plain-prompts'] if shell == 'python' else []))
@@ -250,6 +279,10 @@ def one(case, acc):
             if kind == 'multiline':
                 acc.count('multiline_blocks')
                 seen_special = True
+            if any(ord(c) > 127 for c in exp):
+                acc.count('non_ascii_outputs')
+                if case['async']:
+                    acc.count('non_ascii_outputs_awaited')
             if kind == 'large':
                 acc.count('large_outputs')
                 seen_special = True
